@@ -65,6 +65,17 @@ def load_exec(task):
     tr = Tracer(only=path)
     out, n, msg = None, 0, ""
     namesfile, lineno = True, []
+    # the line cursor of this call (shim on LineIterator.__enter__, no source change): at an error, LineIter!LinenoLaw says
+    # lineno = lines delivered by the file - lines pushed back
+    import iodata.utils as _U
+    lits = []
+    _enter0 = _U.LineIterator.__enter__
+
+    def _enter(self):
+        lits.append(self)
+        return _enter0(self)
+    _U.LineIterator.__enter__ = _enter
+    stack_len = []
     valid_flags = []
     signal.signal(signal.SIGALRM, _alarm)
     signal.signal(signal.SIGPROF, _alarm)
@@ -101,11 +112,16 @@ def load_exec(task):
                     namesfile = path in str(exc)
                     ln = getattr(exc, "lineno", None)
                     lineno = [] if ln is None else [int(ln)]
+                    if lits and ln:
+                        # (line 0 is no line: a reader that takes the whole file from the handle, like the JSON one, never advanced
+                        #  the cursor, and the law below is about cursors that did)
+                        stack_len = [len(lits[-1].stack)]
     except LoadTimeout:
         out = "timeout"
     finally:
         signal.setitimer(signal.ITIMER_PROF, 0)
         signal.alarm(0)
+        _U.LineIterator.__enter__ = _enter0
         shutil.rmtree(tmp, ignore_errors=True)
     events = list(tr.events)
     if not many and out == "return":
@@ -119,7 +135,7 @@ def load_exec(task):
     discard = 200 if out == "discarded" else 0
     sc = {"many": bool(many), "sel": sel, "frames": frames, "cutWarns": False, "discardAfter": discard, "neverStarted": False}
     end = {"ev": "end", "out": out, "yielded": n, "fd": tr.open_handles() > 0, "warned": False,
-           "namesfile": bool(namesfile), "lineno": lineno, "nread": tr.nread}
+           "namesfile": bool(namesfile), "lineno": lineno, "nread": tr.nread, "stack": stack_len}
     info = {"src": src, "note": note, "msg": msg, "fmt": fmtarg, "basename": basename, "many": many, "module": module}
     return [{"sc": sc}] + events + [end], info
 
@@ -160,7 +176,7 @@ def mutations(data: bytes, rng, n):
                 if kind == "overflow":
                     rep = rng.choice([b"99999999999999999999", b"1e999", b"-1", b"nan", b"1.0D+400", b"********"])
                 else:
-                    rep = rng.choice([b"1000000", b"0", str(int(float(m.group().replace(b"D", b"E").replace(b"d", b"e")) if b"." not in m.group() else 7) + 1).encode()])
+                    rep = rng.choice([b"1000000", b"0", b"1000000000000000", b"4000000000", str(int(float(m.group().replace(b"D", b"E").replace(b"d", b"e")) if b"." not in m.group() else 7) + 1).encode()])
                 ls[i] = ls[i][:m.start()] + rep + ls[i][m.end():]
         elif kind == "blank":
             ls[i] = b"\n"
@@ -329,6 +345,8 @@ def describe(tr, r, info):
         flags.append("message-without-file")
     if end["lineno"] and not (0 <= end["lineno"][0] <= end["nread"]):
         flags.append("lineno-not-a-read-line")
+    elif end["lineno"] and end.get("stack") and end["lineno"][0] != end["nread"] - end["stack"][0]:
+        flags.append("lineno-not-the-last-line-read")
     if ev.get("ev") == "yield" and not ev.get("valid", True):
         attrs_ = sorted(set(re.findall(r"(?:inconsistent: |; )([\w.]+(?:\[\w+\])?)", info["msg"])))
         flags.append("inconsistent-shapes(" + "+".join(attrs_) + ")")
